@@ -127,7 +127,13 @@ where
             }
         }
 
-        Ok(kv_pairs.into_iter().collect())
+        // Return the pairs in key order (the order of the encoded keys, like the database iterator)
+        let mut kv_pairs: Vec<(Vec<u8>, (K, V))> = kv_pairs
+            .into_iter()
+            .map(|(key, value)| (key.encode_vec(), (key, value)))
+            .collect();
+        kv_pairs.sort_by(|a, b| a.0.cmp(&b.0));
+        Ok(kv_pairs.into_iter().map(|(_, pair)| pair).collect())
     }
 
     /// Returns all keys and values in the database
